@@ -15,6 +15,10 @@
 // observed ((dec) (unzip) (res ...))
 // input    (13 fmt #stream)                                            a qnet.TcpConn reading from a loopback
 // observed (nerr errkind (pkt ...) closed timedout late dcount dkind)   connection that is sent the stream, then EOF
+// input    (14 fmt #part1 #part2 pause_ms)                             the same with a 1 s read timeout: the peer
+// observed (nerr errkind (pkt ...) closed timedout late)                writes part1, pauses longer than the timeout
+//                                                                       in the middle of a frame, writes part2 (the
+//                                                                       tail of the frame's body, itself a valid frame)
 // panicked = 2 in a res: the decoder was not run (memory guard, see guard()).
 package main
 
@@ -27,6 +31,7 @@ import (
 	"net"
 	"runtime"
 	"runtime/debug"
+	"sync"
 	"sync/atomic"
 	"time"
 
@@ -349,7 +354,7 @@ func runSweep(in Sx) Sx {
 // writes the stream and half-closes; observed are the frames delivered, the errors notified, and
 // whether the peer saw the connection closed.  Scenarios that do not finish within generous
 // time limits are reported as timed out (inconclusive), never as a failure.
-var connTimeouts int
+var connTimeouts int64
 
 func runConn(in Sx) Sx {
 	ver, data := in.At(1).AsInt(), in.At(2).AsBytes()
@@ -373,7 +378,7 @@ func runConn(in Sx) Sx {
 	}
 	direct := []Sx{Int(int64(dcount)), Int(int64(dkind))}
 	timedOut := func() Sx {
-		connTimeouts++
+		atomic.AddInt64(&connTimeouts, 1)
 		return ListOf(append([]Sx{Int(0), Int(0), ListOf(nil), Int(0), Int(1), Int(0)}, direct...))
 	}
 	ln, err := net.Listen("tcp", "127.0.0.1:0")
@@ -491,8 +496,121 @@ func runConn(in Sx) Sx {
 	return ListOf(append([]Sx{Int(int64(nerr)), Int(int64(kind)), ListOf(pkts[:delivered]), Int(int64(closed)), Int(0), Int(int64(late))}, direct...))
 }
 
+// runTimeout: a read deadline that fires in the middle of a frame.  The verdict is about WHICH
+// packets are delivered (only frames the peer really sent, in order), not about when.
+var (
+	toMu    sync.Mutex
+	toUsers int
+	toSaved int
+)
+
+func shortReadTimeout() func() {
+	toMu.Lock()
+	if toUsers == 0 {
+		toSaved = qnet.TConnReadTimeout
+		qnet.TConnReadTimeout = 1
+	}
+	toUsers++
+	toMu.Unlock()
+	return func() {
+		toMu.Lock()
+		toUsers--
+		if toUsers == 0 {
+			qnet.TConnReadTimeout = toSaved
+		}
+		toMu.Unlock()
+	}
+}
+
+func runTimeout(in Sx) Sx {
+	ver, part1, part2, pause := in.At(1).AsInt(), in.At(2).AsBytes(), in.At(3).AsBytes(), in.At(4).AsInt()
+	defer shortReadTimeout()()
+	inconclusive := List(Int(0), Int(0), ListOf(nil), Int(0), Int(1), Int(0))
+	ln, err := net.Listen("tcp", "127.0.0.1:0")
+	if err != nil {
+		return inconclusive
+	}
+	defer ln.Close()
+	cli, err := net.Dial("tcp", ln.Addr().String())
+	if err != nil {
+		return inconclusive
+	}
+	defer cli.Close()
+	srv, err := ln.Accept()
+	if err != nil {
+		return inconclusive
+	}
+	defer srv.Close()
+	errCh := make(chan error, 16)
+	incoming := make(chan fatchoy.IPacket, 256)
+	tc := qnet.NewTcpConn(fatchoy.NodeID(1), srv, NewEncoder(ver, 0), errCh, incoming, 8, nil)
+	tc.Go(fatchoy.EndpointReader)
+	go func() {
+		cli.Write(part1)
+		time.Sleep(time.Duration(pause) * time.Millisecond)
+		cli.Write(part2) // may fail: the other side has closed by now
+		if c, ok := cli.(*net.TCPConn); ok {
+			c.CloseWrite()
+		}
+	}()
+	var first error
+	select {
+	case first = <-errCh:
+	case <-time.After(60 * time.Second):
+		atomic.AddInt64(&connTimeouts, 1)
+		return inconclusive
+	}
+	kind := 9
+	var qe *qnet.Error
+	if errors.As(first, &qe) {
+		kind = ErrKind(qe.Err)
+	}
+	var pkts []Sx
+	drain := func() int {
+		n := 0
+		for {
+			select {
+			case p := <-incoming:
+				if pp, ok := p.(*packet.Packet); ok {
+					pkts = append(pkts, PacketSx(pp, BodyToSx(pp.Body_)))
+				}
+				n++
+			default:
+				return n
+			}
+		}
+	}
+	drain()
+	delivered := len(pkts)
+	closed := 0
+	cli.SetReadDeadline(time.Now().Add(30 * time.Second))
+	var buf [16]byte
+	if _, rerr := cli.Read(buf[:]); rerr != nil {
+		if ne, ok := rerr.(net.Error); ok && ne.Timeout() {
+			atomic.AddInt64(&connTimeouts, 1)
+			return inconclusive
+		}
+		closed = 1 // EOF, or a reset because our late write hit the closed side
+	}
+	time.Sleep(time.Duration(pause+200) * time.Millisecond) // part2 has been written by now
+	late := drain()
+	nerr := 1
+	for more := true; more; {
+		select {
+		case <-errCh:
+			nerr++
+			late++
+		default:
+			more = false
+		}
+	}
+	return List(Int(int64(nerr)), Int(int64(kind)), ListOf(pkts[:delivered]), Int(int64(closed)), Int(0), Int(int64(late)))
+}
+
 func run(in Sx) Sx {
 	switch in.At(0).Int64() {
+	case 14:
+		return runTimeout(in)
 	case 13:
 		return runConn(in)
 	case 10:
@@ -880,7 +998,39 @@ func gen(a Args, out *Out) {
 		}
 		emit(kind, List(Int(13), Int(int64(ver)), Bytes(data)))
 	}
-	out.CountN("conn-timeouts(inconclusive)", connTimeouts)
+	// 5. a read deadline firing in the middle of a frame whose body tail is itself a valid frame:
+	// the connection must be closed, the tail must never be delivered as a packet.  The scenarios
+	// wait for real time, so they run side by side
+	{
+		nto := 2
+		if thorough {
+			nto = 8
+		}
+		ins := make([]Sx, nto)
+		obs := make([]Sx, nto)
+		var wg sync.WaitGroup
+		for i := 0; i < nto; i++ {
+			ver := 1 + i%2
+			var pre []byte
+			for k := rng.Intn(3); k > 0; k-- {
+				pre = append(pre, validFrame(rng, ver, 0, 0, rng.Intn(40), false)...)
+			}
+			inner := craft(ver, 1, 0, 0, 666, 0x0a0b0c0d, 666, rng.Bytes(1+rng.Intn(20)), -1, false)
+			outer := craft(ver, 1, 0, 0, 42, 0x01020304, 777, append(rng.Bytes(1+rng.Intn(30)), inner...), -1, false)
+			cut := len(outer) - len(inner)
+			ins[i] = List(Int(14), Int(int64(ver)), Bytes(append(pre, outer[:cut]...)), Bytes(outer[cut:]), Int(1700))
+			wg.Add(1)
+			go func(i int) {
+				defer wg.Done()
+				obs[i] = run(ins[i])
+			}(i)
+		}
+		wg.Wait()
+		for i := range ins {
+			out.Case("conn-read-timeout", true, ins[i], obs[i])
+		}
+	}
+	out.CountN("conn-timeouts(inconclusive)", int(atomic.LoadInt64(&connTimeouts)))
 	out.CountN("alloc-measured(MemStats)", allocMeasured)
 	out.CountN("alloc-inconclusive(MemStats)", allocInconclusive)
 	if hugeSeen {
